@@ -4,6 +4,7 @@ import (
 	"bytes"
 	"fmt"
 	"io"
+	"strings"
 	"testing"
 
 	"github.com/foxglove/mcap/go/mcap"
@@ -134,6 +135,11 @@ func checkC14(c WKCase, st *stats.Collector) error {
 			}
 		}
 		vs = append(vs, variant{2, 0, 1}, variant{2, 0, 4096})
+		// standard-library readers the caller has already read from (a sniffed header, a resumed upload): they
+		// still report their total size through Size()/Len()-like methods, but deliver fewer bytes than declared
+		if size >= 2 {
+			vs = append(vs, variant{3, 1, 0}, variant{3, size / 2, 0}, variant{4, 1, 0}, variant{5, size - 1, 0})
+		}
 		for _, v := range vs {
 			target := o.A
 			var got error
@@ -145,6 +151,20 @@ func checkC14(c WKCase, st *stats.Collector) error {
 			}
 			calls := mc.Calls(w, nil, func(a *wl.Attachment) io.Reader {
 				if a == target {
+					switch v.mode {
+					case 3: // *bytes.Reader, j bytes already consumed
+						r := bytes.NewReader(a.Data)
+						_, _ = io.CopyN(io.Discard, r, int64(v.j))
+						return r
+					case 4: // *strings.Reader, j bytes already consumed
+						r := strings.NewReader(string(a.Data))
+						_, _ = io.CopyN(io.Discard, r, int64(v.j))
+						return r
+					case 5: // *io.SectionReader positioned j bytes in
+						r := io.NewSectionReader(bytes.NewReader(a.Data), 0, int64(len(a.Data)))
+						_, _ = r.Seek(int64(v.j), io.SeekStart)
+						return r
+					}
 					return &faultio.AttSource{Data: a.Data, J: v.j, Mode: v.mode, Extra: v.extra}
 				}
 				return bytes.NewReader(a.Data)
@@ -170,7 +190,8 @@ func checkC14(c WKCase, st *stats.Collector) error {
 			attN++
 			if sawCall && got == nil {
 				return pk.Failf("attachment-source", "WriteAttachment returned nil although its %d-byte source %s", size,
-					map[int]string{0: fmt.Sprintf("failed after %d bytes", v.j), 1: fmt.Sprintf("ended after %d bytes", v.j), 2: fmt.Sprintf("delivered %d extra bytes", v.extra)}[v.mode])
+					map[int]string{0: fmt.Sprintf("failed after %d bytes", v.j), 1: fmt.Sprintf("ended after %d bytes", v.j), 2: fmt.Sprintf("delivered %d extra bytes", v.extra),
+						3: fmt.Sprintf("was a *bytes.Reader with %d bytes already read", v.j), 4: fmt.Sprintf("was a *strings.Reader with %d bytes already read", v.j), 5: fmt.Sprintf("was an *io.SectionReader positioned at %d", v.j)}[v.mode])
 			}
 		}
 	}
